@@ -18,6 +18,12 @@ func init() {
 		Trusted:     []string{"go/ssa (x/tools v0.29.0)", "HKDF one-wayness", "effects identified by the namespace constants of pkg/secretstore"},
 		Assumptions: []string{"the evaluator's window sizes 1..3 are representative of the loop's counting form (the loop body is the same for every size)"},
 		Floors:      map[string]int{"D1": 4, "D2": 3, "D3": 7, "D4": 2, "D5": 4, "D6": 2},
+		Borrows: []Borrow{
+			{From: "C14", Rules: []string{"D1"}, Why: "opening a message through the push route must not consume its precomputed key or the chain key: the same envelope arriving through the log afterwards is inside the window and must open"},
+			{From: "C09", Rules: []string{"D1"}, Why: "two envelopes sealed under one counter: the receiver opens one, which deletes the key of that counter, and the other can never be opened whatever the retries"},
+			{From: "C08", Rules: []string{"D4", "D5"}, Why: "the property holds 'provided a message that fails is retried after others have been opened'; in the message store (an anchor of this property) that retry is the re-injection of the sender's whole parked queue after a registration and after every successful open"},
+			{From: "C15", Rules: []string{"D6"}, Why: "that re-injection relies on the per-device queue handing over every parked item, lowest counter first"},
+		},
 		Run:         runC02,
 	})
 }
